@@ -34,6 +34,63 @@ def pattern(sc):
     return "".join("p" if o["imm"] else "n" for o in sc["ops"])
 
 
+def mast_part(ck, wd, thorough):
+    """T: Mast.tla's hash recipe (hash_domain(children) with domain = opcode, span = HashElems(groups)) evaluated with the
+    primitives on every node of assembled programs of every control-flow shape, compared with CodeBlock::hash(),
+    Program::hash(), the trace's program hash; metamorphic pairs (decorators / debug mode / layout do not change the hash,
+    a changed operation or immediate does)."""
+    from lib import vmtrace, progen
+    r = tlc_or_die("GEN_Mast.tla", cfg="GEN_Mast.cfg", cwd=os.path.join(SPEC, "gen"), timeout=600)
+    ck.add_tlc(r)
+    recipe = json_prints(r, "recipe")[0]
+    progs = progen.corpus(seed() + 8, 200 if thorough else 40, nstmts=12) + progen.depth_sweep(depths=(0,), rng_seed=seed())
+    base = "proc.f\n  push.1 drop\nend\nbegin\n  push.5 push.7 add\n  if.true\n    push.3 drop call.f\n  else\n    push.4 drop\n  end\n  push.0\n  while.true\n    push.0\n  end\n  procref.f dynexec dropw\nend\n"
+    variants = [("base", base, {}),
+                ("layout", "# a comment\n" + base.replace("\n", "\n\n").replace("  ", "\t"), {}),
+                ("debug-mode", base, {"debug": True}),
+                ("decorators", base.replace("push.5 push.7 add", "debug.stack push.5 emit.1 push.7 trace.2 add adv.push_mapval"), {}),
+                ("renamed", base.replace("proc.f", "proc.other").replace("call.f", "call.other").replace("procref.f", "procref.other"), {}),
+                ("changed-op", base.replace("push.5 push.7 add", "push.5 push.7 mul"), {}),
+                ("changed-imm", base.replace("push.3 drop", "push.9 drop"), {}),
+                ("swapped-branches", base.replace("push.3 drop call.f", "@@").replace("push.4 drop", "push.3 drop call.f").replace("@@", "push.4 drop"), {})]
+    meta = [{"src": src, "kernel": None, "inputs": [], "class": "meta:" + nm, **kw} for nm, src, kw in variants]
+    allp = progs + meta
+    inp = os.path.join(wd, "mast_scenarios.ndjson")
+    vmtrace.write_scenarios(allp, inp)
+    lines = open(inp).read().split("\n")
+    for i, p in enumerate(allp):
+        if p.get("debug"):
+            d = json.loads(lines[i])
+            d["debug"] = True
+            lines[i] = json.dumps(d)
+    with open(inp, "w") as f:
+        f.write(json.dumps(recipe) + "\n" + "\n".join(lines))
+    outp = os.path.join(wd, "mast.out")
+    run_harness("release", ["mast-recipe", inp, outp])
+    hashes, nodes = {}, 0
+    for p, line in zip(allp, open(outp)):
+        res = json.loads(line)
+        ck.traces += 1
+        ck.note_case("mast:" + p["src"])
+        if res["outcome"] != "ok":
+            raise ToolError("program for the MAST recipe check does not assemble: %s | %s" % (str(res)[:200], p["src"][:200]))
+        nodes += res["nodes"]
+        for mm in res["mismatches"]:
+            ck.violation("mast:%s" % mm["kind"], "hash of a %s node is not what the recipe of programs.md gives (class %s)" % (mm["kind"], p["class"]),
+                         {"kind": "mast", "program": p, "mismatch": mm})
+        hashes[p["class"]] = res["hash"]
+    same = ["meta:layout", "meta:debug-mode", "meta:decorators", "meta:renamed"]
+    diff = ["meta:changed-op", "meta:changed-imm", "meta:swapped-branches"]
+    for c in same:
+        if hashes[c] != hashes["meta:base"]:
+            ck.violation("mast:metamorphic:%s" % c, "%s changes the program hash" % c, {"kind": "mast", "variant": c})
+    for c in diff:
+        if hashes[c] == hashes["meta:base"]:
+            ck.violation("mast:metamorphic:%s" % c, "%s does not change the program hash" % c, {"kind": "mast", "variant": c})
+    ck.extra["mast_nodes_checked_against_recipe"] = nodes
+    ck.extra["mast_programs"] = len(allp)
+
+
 def run(tier, replay=None):
     ck = Check("C08", tier)
     ck.rule = ("a case = one operation sequence; exhaustive: every push/non-push pattern up to length N "
@@ -99,6 +156,8 @@ def run(tier, replay=None):
             d = compare_span(sc, res)
             if d:
                 ck.violation("span:%s:%s" % (prof, pattern(sc)[:80]), d, {"kind": "span", "profile": prof, "scenario": sc, "impl": res})
+    if not replay:
+        mast_part(ck, wd, thorough)
     for sc in scs[:2] + scs[-2:]:
         ck.sample({"pattern": pattern(sc), "batches": len(sc["batches"]), "group_count": sc["gc"],
                    "first_batch_groups": sc["batches"][0]["groups"]})
